@@ -4,6 +4,7 @@ import (
 	"context"
 	"errors"
 	"fmt"
+	"os"
 	"sort"
 	"strings"
 	"time"
@@ -830,6 +831,9 @@ func RunC18(t *kernel.Tape, o Opts) *Result {
 	// that succeeds is judged as always, and so is everything that runs after
 	// the faults have stopped.
 	faulty := t.Bool(1, 3)
+	if os.Getenv("VERIF_NO_ABORT_FAULTS") != "" {
+		faulty = false // sensitivity experiments only: what would be seen without this fault family
+	}
 	var epilogue []*c18Op
 	if faulty {
 		for _, ops := range programs {
